@@ -932,6 +932,48 @@ def registration_and_reinsertion_stream(ctx, res):
                     res.violate("C11:required-empty-accepted", "a load returned although a required string inside a list is empty (its declaration also names a length bound)", case)
 
 
+def required_include_stream(ctx, res):
+    """a field marked required is required whatever its kind: an include field (a file name field by class) that is marked required and
+    unset after a load — at the root and in a section — makes the load and an explicit validation fail; set, it does not"""
+    import os
+    import cincoconfig as cc
+    tmp = ctx.tmpdir()
+    with open(os.path.join(tmp, "inc.json"), "w") as fh:
+        json.dump({"port": 2}, fh)
+    for where in ("root", "section"):
+        for given in (False, True):
+            for route in ("load_tree", "loads", "validate", "collect"):
+                s = cc.Schema()
+                h = s if where == "root" else s.base
+                h.include = cc.IncludeField(startdir=tmp, required=True)
+                h.port = cc.IntField(default=1)
+                s.name = cc.StringField(default="n")
+                body = {"port": 3}
+                if given:
+                    body["include"] = "inc.json"
+                tree = body if where == "root" else {"base": body}
+                cfg = s()
+                errs = None
+                try:
+                    if route == "load_tree":
+                        cfg.load_tree(tree)
+                    elif route == "loads":
+                        cfg.loads(json.dumps(tree).encode(), format="json")
+                    else:
+                        if given:
+                            cfg.load_tree(tree)
+                        errs = cfg.validate(collect_errors=(route == "collect"))
+                    returned = not errs
+                except Exception:  # noqa
+                    returned = False
+                case = {"stream": "required-include", "where": where, "include_given": given, "route": route}
+                res.case(stable(case), kind="required-include:" + ("given" if given else "missing"))
+                if returned and not given:
+                    res.violate("C11:required-unset-accepted:include", "a load / validation returned although a field marked required (an include field) has no value", case)
+                elif not returned and given:
+                    res.violate("C11:valid-rejected:include", "a load / validation failed although the required include field is set to an existing file", case)
+
+
 def run(ctx, n_quick=250, n_thorough=8000):
     res = Result()
     tmp, keypath = P.setup(ctx)
@@ -952,6 +994,7 @@ def run(ctx, n_quick=250, n_thorough=8000):
     guard(res, "C11", flag_and_none_stream, ctx, res)
     guard(res, "C11", odd_exception_stream, ctx, res)
     guard(res, "C11", registration_and_reinsertion_stream, ctx, res)
+    guard(res, "C11", required_include_stream, ctx, res)
     return res
 
 
